@@ -107,7 +107,11 @@ def compute(o):
                        + [bits(o['ammo_d'].powder_temp.raw_value), bits(o['atmo_d'].powder_temp.raw_value), bits(o['atmo_d'].pressure.raw_value),
                           bits(o['shot_dd'].atmo.temperature.raw_value), bits(o['shot_dd'].winds[0].until_distance.raw_value), bits(pb.Atmo.icao().density_ratio),
                           bits(pb.Vacuum().temperature.raw_value), bits(o['ammo_d'].get_velocity_for_temp(U.Celsius(30)).raw_value)])
-    out['multibc'] = [bits(o['dm2'].BC)] + [bits(pt.CD) for pt in o['dm2'].drag_table]
+    out['multibc'] = ([bits(o['dm2'].BC), bits(o['dm2'].weight.raw_value), bits(o['dm2'].diameter.raw_value), bits(o['dm2'].length.raw_value)]
+                      + [bits(pt.CD) for pt in o['dm2'].drag_table]
+                      + traj_bits(calc.fire(pb.Shot(pb.Weapon(U.Inch(2), U.Inch(10)), pb.Ammo(o['dm2'], U.FPS(2600))), U.Yard(100), U.Yard(50)).trajectory))
+    # no step given: the library derives it from the range (one tenth) - for ranges whose tenth is not exact in every unit, too
+    out['no_step'] = [traj_bits(calc.fire(o['shot_dd'], rng).trajectory) for rng in (U.Yard(77.7), U.Foot(100), U.Meter(35), U.Inch(1234.5))]
     sg = []
     for s in o['sights']:
         a = s.get_adjustment(U.Meter(250), U.Mil(1.3), U.Mil(-0.4), 7)
@@ -198,9 +202,9 @@ def params():
         from mc.world import traj_bits
         return traj_bits(calc.fire(shot, U.Yard(rng), U.Yard(10)).trajectory)
 
-    def extra_hr():
+    def extra_hr(**kw):
         # danger space scenario on the FALLING branch (zeroed at 100 yd, target at 250 yd)
-        s = base_shot()
+        s = base_shot(**kw)
         return calc.fire(s, U.Yard(400), U.Yard(5), True)
 
     def atmo_fp(a):
@@ -245,7 +249,7 @@ def params():
         'danger.target_height': ('target_height', lambda v: q([extra_hr().danger_space(U.Yard(250), v).end.distance,
                                                                 extra_hr().danger_space(U.Yard(250), v).begin.distance,
                                                                 extra_hr().danger_space(U.Yard(250), v).target_height])),
-        'danger.look_angle': ('angular', lambda v: q(extra_hr().danger_space(U.Yard(50), U.Inch(10), v).look_angle)),
+        'danger.look_angle': ('angular', lambda v: q(extra_hr(look_angle=U.Degree(5)).danger_space(U.Yard(50), U.Inch(10), v).look_angle)),
         'Sight.scale_factor': ('distance', lambda v: q(list(pb.Sight('SFP', v, U.Mil(0.1), U.Mil(0.1)).get_adjustment(U.Yard(100), U.Mil(1), U.Mil(1), 4)))),
         'Sight.h_click': ('adjustment', lambda v: q(list(pb.Sight('FFP', U.Yard(100), v, U.Mil(0.1)).get_adjustment(U.Yard(100), U.Mil(1), U.Mil(1), 4)))),
         'Sight.v_click': ('adjustment', lambda v: q(list(pb.Sight('SFP', U.Yard(100), U.Mil(0.1), v).get_adjustment(U.Yard(50), U.Mil(1), U.Mil(1), 4)))),
